@@ -24,7 +24,131 @@ def run(ctx):
         refine.refine_batch(ctx, ctx.size(120, 1500), force=FORCE, pid=PID, name="trace-refinement(Tree.step vs DemeTree.run)"),
         runs.monitor_batch(ctx, PID, ctx.size(250, 3000), force=FORCE),
         _shared_mechanism(ctx),
+        fault_injection(ctx, ctx.size(40, 500)),
     ]
+
+
+class InjectedFault(Exception):
+    """raised by the objective at a chosen call made while the tree is sprouting"""
+
+
+class FaultyObjective(runs.CountingObjective):
+    holder = None
+
+    def __call__(self, x):
+        h = self.holder
+        if h is not None and h["in_sprout"]:
+            h["left"] -= 1
+            if h["left"] == 0:
+                h["faults"] += 1
+                raise InjectedFault("objective failed")
+        return super().__call__(x)
+
+
+def structure_of(tree, nlev):
+    """the tree's structure by object identity; returns a description of the first defect or None"""
+    levels = tree.levels
+    if len(levels) != nlev or len(levels[0]) != 1 or levels[0][0] is not tree.root:
+        return f"levels have the shape {[len(lv) for lv in levels]}"
+    alld = [d for lv in levels for d in lv]
+    ids = [d.id for d in alld]
+    if len(set(ids)) != len(ids):
+        return f"two demes carry the same id: {sorted(ids)}"
+    listed = {}
+    for lvl, lv in enumerate(levels):
+        for d in lv:
+            if d.level != lvl:
+                return f"deme {d.id} registered at level {lvl} reports level {d.level}"
+            for c in d.children:
+                nxt = levels[lvl + 1] if lvl + 1 < len(levels) else []
+                if not any(c is x for x in nxt):
+                    return f"deme {d.id} lists a child (id {getattr(c, 'id', '?')}, {type(c).__name__}) that is not a deme of the tree one level below"
+                listed[id(c)] = listed.get(id(c), 0) + 1
+    for d in alld:
+        if d is not tree.root and listed.get(id(d), 0) != 1:
+            return f"deme {d.id} is listed as a child {listed.get(id(d), 0)} times"
+    return None
+
+
+def _fault_worker(args):
+    """a run in which the objective fails once or twice DURING SPROUTING (while a child's initial population is
+    evaluated); the caller survives the exception and goes on stepping.  Whatever happened to the child that
+    was being built, the demes must still form a well-formed tree after every step."""
+    spec, first, second = args
+    import pyhms.tree as T
+    from pyhms.config import TreeConfig
+
+    from ..common import RunTimeout, is_env_crash, run_limit
+
+    holder = {"in_sprout": False, "left": first, "faults": 0}
+    found = []
+    try:
+        with run_limit():
+            o = runs.build(spec, None, plain="callable")
+            for r in o["recs"]:
+                r.__class__ = FaultyObjective
+                r.holder = holder
+            opts = {"random_seed": spec["seed"], "hibernation": spec["hibernation"]}
+            tree = T.DemeTree(TreeConfig(o["levels"], o["gsc"], o["sm"], options=opts, config_class_to_deme_class=o["custom"]))
+            orig = tree.run_sprout
+
+            def rs():
+                holder["in_sprout"] = True
+                try:
+                    return orig()
+                finally:
+                    holder["in_sprout"] = False
+
+            tree.run_sprout = rs
+            steps = 0
+            while steps < spec["max_steps"]:
+                try:
+                    if tree._gsc(tree):
+                        break
+                    tree.run_step()
+                except InjectedFault:
+                    holder["in_sprout"] = False
+                    if holder["faults"] == 1:
+                        holder["left"] = second
+                steps += 1
+                bad = structure_of(tree, len(spec["levels"]))
+                if bad and not found:
+                    found.append(f"after step {steps} ({holder['faults']} injected fault(s) so far): {bad}")
+    except RunTimeout as e:
+        return {"status": "env", "detail": str(e)}
+    except Exception as e:  # noqa: BLE001 (what a run does after a fault, apart from keeping its structure, is not claimed)
+        return {"status": "env" if (is_env_crash(e) or holder["faults"]) else "crash", "detail": f"{type(e).__name__}: {e}", "found": found, "faults": holder["faults"]}
+    return {"status": "ok", "found": found, "faults": holder["faults"], "demes": sum(len(lv) for lv in tree.levels)}
+
+
+def fault_injection(ctx, n):
+    from ..common import Slice, pmap
+
+    sl = Slice("objective fails while a child is being constructed; the run goes on (structure by object identity after every step)")
+    n = ctx.boost(n) if hasattr(ctx, "boost") else n
+    rng = ctx.rng(61)
+    args = []
+    for _ in range(n):
+        spec = runs.rand_spec(rng, nlev=int(rng.choice([2, 2, 3])), engines={0: ["sea", "de", "shade", "ga", "seax"], 1: ["sea", "de", "shade", "cma", "xsea", "xde"], 2: ["sea", "de", "local", "cma"]},
+                              gsc={"kind": "MetaepochLimit", "limit": 8}, max_steps=8, cutoff=None)
+        args.append((spec, int(rng.integers(1, 12)), int(rng.integers(1, 12))))
+    for (spec, a, b), r in zip(args, pmap(_fault_worker, args, chunksize=2)):
+        for m in r.get("found", []):
+            sl.violations.append({"signature": "C07/structure-broken-after-a-failed-sprout", "detail": m, "replay": {"spec": spec, "faults_at": [a, b]}})
+        if r["status"] == "env":
+            sl.skipped += 1
+            sl.count("skipped:run-raised-after-the-fault")
+            continue
+        if r["status"] == "crash":
+            sl.violations.append({"signature": "C07/run-crashed", "detail": r["detail"], "replay": {"spec": spec}})
+            continue
+        sl.cases += 1
+        sl.count(f"faults:{r['faults']}")
+        if r["faults"]:
+            sl.nontrivial.add(runs.spec_id(spec))
+    if args:
+        sl.sample(runs.describe(args[0][0]))
+    return sl
 
 
 def _shared_mechanism(ctx):
